@@ -4,8 +4,10 @@ from __future__ import annotations
 
 import itertools
 
-from .. import e1, impl
+from .. import automata as A
+from .. import e1, impl, linelang, refmodel
 from ..chartgen import mk
+from ..linelang import BL
 
 ID = "C08"
 LEVEL = "model_checking"
@@ -21,6 +23,14 @@ ASSUMPTIONS = [
     "expected tempo is Python's correctly rounded n/1000",
     "time-signature exponents above 16 and values beyond 18 digits are not explored",
 ]
+
+D = "[0-9]"
+KINDS = {
+    "B": dict(canon="0 = B 1", must=rf"^{BL}*{D}+ = B {D}+$", may=rf"^{BL}*{D}+ = B {D}+{BL}*$"),
+    "TS": dict(canon="0 = TS 1", must=rf"^{BL}*{D}+ = TS {D}+( {D}+)?$", may=rf"^{BL}*{D}+ = TS {D}+( {D}+)?{BL}*$"),
+    "A": dict(canon="0 = A 1", must=rf"^{BL}*{D}+ = A {D}+$", may=rf"^{BL}*{D}+ = A {D}+{BL}*$"),
+}
+DROP = ("metadata", "globals", "tracks", "instruments")
 
 PROBE_SRC = '''
 def probe(c):
@@ -43,7 +53,7 @@ def setup():
 def plan(tier, seed):
     N = 10**7 if tier == "quick" else 5 * 10**7
     shards = [("B", lo, min(N, lo + 10 * PACK - 1)) for lo in range(1, N + 1, 10 * PACK)]
-    shards += [("beyond",), ("TS", 0), ("TS", 1), ("A",), ("ticks",), ("seq", "TS"), ("seq", "A"), ("seq", "B")]
+    shards += [("automata", 5 if tier == "quick" else 6), ("beyond",), ("TS", 0), ("TS", 1), ("A",), ("ticks",), ("seq", "TS"), ("seq", "A"), ("seq", "B")]
     return dict(shards=shards, bounds=dict(B_all_up_to=N, TS_upper="0..64 + 10^k-1", TS_exponent="absent, 0..16", tick_digits="<= 15, leading zeros"), budget_s=900)
 
 
@@ -102,9 +112,59 @@ def check_lines(ctx, lines, exp_ts, exp_a, what, res=960, tempo=("0 = B 10000000
         e1.report(ctx, "sync-line", text, PROBE_SRC, [[got[0] if exp_b is None else exp_b, acc_ts, exp_a]], got, "%s: lines %r decode to TS %r anchors %r" % (what, lines, got[1][1:], got[2]))
 
 
+def sync_context(line):
+    """Sync body in which `line` (a canonical B / TS / A line) is well-formed."""
+    d = refmodel.read_sync_line(line)
+    if d is not None and d[0] == "B" and d[1] == 0:
+        return ["0 = TS 4", line]
+    return ["0 = TS 4", "0 = B 1000000000", line]
+
+
+def _automata(ctx, L):
+    try:
+        a = linelang.analyse("sync", KINDS)
+    except A.Unsupported as e:
+        ctx.hist["E3_unavailable(%s): bounded enumeration only" % e] += 1
+        ctx.extra["e3"] = "unavailable: %s" % e
+        return
+    g = a.graph
+    ctx.nodes += len(g.states)
+    ctx.edges += g.transitions
+    ctx.extra.update(product_states=len(g.states), product_transitions=g.transitions, alphabet_classes=g.nclasses, captured_recognisers=[p.pattern for p in a.pats], captured_order=[k or "?" for k in a.kind_of])
+    ctx.extra["translator_vs_regex_engine_strings"] = linelang.conformance(a, L)
+
+    def e2e(w, why):
+        text = mk(res=960, sync=sync_context(w))
+        res = refmodel.model(text)
+        ctx.case(("e2e", text), sample=lambda: dict(sync_body=sync_context(w), why=why))
+        ctx.evaluations += 1
+        e1.check_model(ctx, "sync-line-end-to-end", text, res, msg="%s: sync body %r" % (why, sync_context(w)), drop=DROP)
+
+    for what, k, w in a.candidates:
+        ctx.hist["model_candidates"] += 1
+        if what == "must-not-claimed":
+            e2e(w, "product automaton counterexample (L_must(%s))" % k)
+        else:
+            # claimed as k outside L_may(k): confirmed iff the real chart shows one more k event
+            text = mk(res=960, sync=["0 = TS 4", "0 = B 1000000000", w])
+            got = e1.run_probe(probe, text)
+            ctx.case(("cand", w))
+            ctx.evaluations += 1
+            n = dict(B=1, TS=1, A=0)
+            if got[:1] != ["raises"] and len(got[dict(B=0, TS=1, A=2)[k]]) > n[k]:
+                e1.report(ctx, "accepts-non-line", text, PROBE_SRC, [[[[0, float(10**6).hex()]], [[0, 4, 4]], []]], got, "line %r lies outside every shape a %s line may have, yet a %s event is produced" % (w, k, k))
+    for w in a.witnesses:
+        if refmodel.read_sync_line(w) is not None and w == w.rstrip(" \t") and len(w) < 60:
+            e2e(w, "witness of a product transition")
+        else:
+            ctx.hist["witness_outside_L_must"] += 1
+
+
 def run_shard(shard, ctx):
     kind = shard[0]
-    if kind == "B":
+    if kind == "automata":
+        _automata(ctx, shard[1])
+    elif kind == "B":
         _, lo, hi = shard
         for a in range(lo, hi + 1, PACK):
             if ctx.out_of_time():
